@@ -125,7 +125,8 @@ def explore_project(job):
     idx, spec, placement, odd, setup_args = job
     hand = spec if isinstance(spec, dict) else None      # a hand-enumerated project: {'desc', 'files'}
     res = {'idx': idx, 'desc': (hand['desc'] if hand else pg.describe(spec) + ' @' + placement + (' odd-names' if odd else '')) + ' ' + ' '.join(setup_args),
-           'states': 0, 'transitions': 0, 'edges': 0, 'viol': [], 'capped': False, 'nondet_outputs': 0, 'skip': None, 'orders': 0}
+           'states': 0, 'transitions': 0, 'edges': 0, 'viol': [], 'capped': False, 'nondet_outputs': 0, 'skip': None, 'orders': 0,
+           'family': hand.get('family') if hand else None, 'cell': hand.get('cell') if hand else None, 'link_lines': []}
     root = os.path.join(scratch_root(), 'c05.%d' % os.getpid(), 'p')
     shutil.rmtree(root, ignore_errors=True)
     files_repr = hand['files'] if hand else pg.render(spec, placement, odd_names=odd).files
@@ -180,9 +181,12 @@ def explore_project(job):
         wd.reset({})
         produced = {}
         digs = {}
+        link_lines = res['link_lines'] = []
         for e in edges:
             before = wd.listing()
             rr = rn.run_edge(e, bdir)
+            if e.rule.name.endswith('_LINKER'):
+                link_lines.append(rr.command)
             if rr.rc != 0:
                 return None, (e, rr)
             after = wd.listing()
@@ -194,7 +198,11 @@ def explore_project(job):
     ref, err = full_build()
     if err:
         e, rr = err
-        res['viol'].append(('C05:reference-build-fails:' + e.rule.name, 'declaration-order build fails at %s: %s' % (e.outs, rr.output[-300:]),
+        key = 'C05:reference-build-fails:' + e.rule.name
+        if hand and hand.get('must_link') and e.rule.name.endswith('_LINKER') and hand['must_link'] not in rr.command:
+            # the manual says this file is linked into the target; the link line generated for it does not name it
+            key = 'C05:library-not-on-link-line:' + hand['keytag']
+        res['viol'].append((key, 'declaration-order build fails at %s: %s' % (e.outs, rr.output[-300:]),
                             {'files': files_repr, 'setup_args': list(setup_args), 'edge': e.outs, 'command': rr.command}))
         return res
     produced, refdig = ref
@@ -205,6 +213,10 @@ def explore_project(job):
             if dg != refdig.get(o):
                 unstable.add(o)
     res['nondet_outputs'] = len(unstable)
+    if hand and hand.get('must_link') and not any(hand['must_link'] in c for c in res['link_lines']):
+        res['viol'].append(('C05:library-not-on-link-line:' + hand['keytag'], 'the build succeeds but no link line names %s, which the user calls into' % hand['must_link'],
+                            {'files': files_repr, 'setup_args': list(setup_args), 'link_lines': res['link_lines']}))
+        return res
 
     # BFS over ideals
     from collections import deque
@@ -355,9 +367,96 @@ def preprocess_projects():
     return out
 
 
+CTLIB_PRODUCERS = ('a', 'so', 'h+a', 'h+a,hdr-src')
+CTLIB_RELATIONS = ('src', 'dep_src', 'link_with', 'link_whole', 'dep_link_with', 'dep_link_whole')
+CTLIB_CONSUMERS = ('exe', 'shlib', 'static>exe', 'module', 'static>shlib')
+
+
+def ctlib_admissible(prod, rel, cons):
+    """Combinations the reference manual allows: link_whole needs a static archive; a static library cannot absorb (link_whole)
+    an archive that meson did not build itself; a library as a *source* is documented for targets that are linked."""
+    if 'whole' in rel and prod == 'so':
+        return False
+    if 'whole' in rel and cons.startswith('static>'):
+        return False
+    if rel in ('src', 'dep_src') and cons.startswith('static>'):
+        return False        # unspecified corner: a library file among the sources of a static library
+    return True
+
+
+def ctlib_projects(thorough, seed):
+    """A library made by a custom_target() (a foreign build step: compile + ar, or compile -shared; alone or next to its public
+    header, then addressed by index) and linked into a build target: producer shape x relation x consumer kind x build_by_default.
+    The consumer's code calls into the library, so the link needs the file."""
+    out = []
+    n = 0
+    for cons in CTLIB_CONSUMERS if thorough else CTLIB_CONSUMERS[:3]:
+        for prod in CTLIB_PRODUCERS:
+            for rel in CTLIB_RELATIONS:
+                if not ctlib_admissible(prod, rel, cons):
+                    continue
+                n += 1
+                for bbd in ((False, True) if thorough else ((n + seed) % 2 == 1,)):
+                    two = prod.startswith('h+')
+                    libname = 'libext.so' if prod == 'so' else 'libext.a'
+                    make = ('"$@" -fPIC -shared "$in" -o "$out"' if prod == 'so'
+                            else '"$@" -fPIC -c "$in" -o "$out.o" && rm -f "$out" && ar rcsD "$out" "$out.o"')
+                    L = ["project('ctlib', 'c', default_options: ['warning_level=0'])", "cc = meson.get_compiler('c')", "sh = find_program('sh')"]
+                    if two:
+                        L.append("ext = custom_target('ext', input: 'ext.c', output: ['ext.h', '%s'], build_by_default: %s,\n"
+                                 "  command: [sh, '-c', 'in=$1; hdr=$2; out=$3; shift 3; echo \"int ext_value(void);\" > \"$hdr\" && %s',\n"
+                                 "            'mklib', '@INPUT@', '@OUTPUT0@', '@OUTPUT1@', cc.cmd_array()])" % (libname, str(bbd).lower(), make))
+                        lib = 'ext[1]'
+                    else:
+                        L.append("ext = custom_target('ext', input: 'ext.c', output: '%s', build_by_default: %s,\n"
+                                 "  command: [sh, '-c', 'in=$1; out=$2; shift 2; %s',\n"
+                                 "            'mklib', '@INPUT@', '@OUTPUT@', cc.cmd_array()])" % (libname, str(bbd).lower(), make))
+                        lib = 'ext'
+                    hdr_src = prod.endswith('hdr-src')
+                    proto = '#include "ext.h"\n' if hdr_src else 'int ext_value(void);\n'
+                    files = {'ext.c': 'int ext_value(void) { return 30; }\n'}
+                    srcs = ["'user.c'"] + (['ext[0]'] if hdr_src else [])
+                    kw = ''
+                    if rel == 'src':
+                        srcs.append(lib)
+                    elif rel == 'dep_src':
+                        kw = ', dependencies: declare_dependency(sources: %s)' % lib
+                    elif rel in ('link_with', 'link_whole'):
+                        kw = ', %s: %s' % (rel, lib)
+                    else:
+                        kw = ', dependencies: declare_dependency(%s: %s)' % (rel[4:], lib)
+                    first = {'exe': 'executable', 'shlib': 'shared_library', 'module': 'shared_module'}.get(cons, 'static_library')
+                    if first == 'executable':
+                        files['user.c'] = proto + 'int main(void) { return ext_value() - 30; }\n'
+                    else:
+                        files['user.c'] = proto + 'int user_value(void) { return ext_value() + 1; }\n'
+                    L.append("user = %s('user', %s%s)" % (first, ', '.join(srcs), kw))
+                    if cons == 'static>exe':
+                        files['main.c'] = 'int user_value(void);\nint main(void) { return user_value() - 31; }\n'
+                        L.append("executable('app', 'main.c', link_with: user)")
+                    elif cons == 'static>shlib':
+                        files['top.c'] = 'int user_value(void);\nint top_value(void) { return user_value() + 1; }\n'
+                        L.append("shared_library('top', 'top.c', link_with: user)")
+                    files['meson.build'] = '\n'.join(L) + '\n'
+                    desc = 'ctlib: custom target making %s%s, %s of %s, build_by_default %s' % (
+                        {'a': 'libext.a', 'so': 'libext.so'}.get(prod, '[ext.h, libext.a] (library addressed as ext[1]'
+                                                                 + (', ext[0] a source of the user)' if hdr_src else ')')),
+                        '', rel, cons, str(bbd).lower())
+                    out.append(({'desc': desc, 'files': files, 'family': 'ctlib', 'cell': (prod, rel, cons), 'must_link': libname,
+                                 'keytag': '%s:%s' % ('indexed-custom-target-output' if two else 'custom-target', 'sources' if rel in ('src', 'dep_src') else rel)}, ()))
+    return out
+
+
 def jobs_for(ck):
     jobs = []
     idx = 0
+    # libraries made by custom targets, linked by build targets
+    if ck.want('ctlib'):
+        for spec, args in ctlib_projects(ck.thorough, ck.seed):
+            jobs.append((idx, spec, 'root', False, args))
+            idx += 1
+    if ck.args.only and not ck.want('projgen'):
+        return jobs
     if ck.thorough:
         kmax, libv = 3, ('static', 'shared', 'both')
     else:
@@ -435,6 +534,7 @@ def main():
     jobs = jobs_for(ck)
     tot = {'projects': 0, 'states': 0, 'transitions': 0, 'edges': 0, 'capped': 0, 'skipped_setup': 0, 'orders': 0, 'nondet_outputs': 0, 'with_branching': 0}
     maxedges = 0
+    ctl = {'projects': 0, 'cells': set(), 'library_on_link_line': 0}
     for res in pmap(explore_project, jobs, chunksize=1):
         if res['skip']:
             tot['skipped_setup'] += 1
@@ -447,6 +547,11 @@ def main():
         if res['states'] > res['edges'] + 1:
             tot['with_branching'] += 1
         maxedges = max(maxedges, res['edges'])
+        if res['family'] == 'ctlib':
+            ctl['projects'] += 1
+            ctl['cells'].add(tuple(res['cell']))
+            if any('libext.' in c for c in res['link_lines']):
+                ctl['library_on_link_line'] += 1
         if res['states'] > 6:
             ck.sample({'project': res['desc'], 'edges': res['edges'], 'ideals': res['states'], 'transitions': res['transitions']}, cap=5)
         for key, what, rep in res['viol']:
@@ -454,7 +559,13 @@ def main():
             ck.violation(key, res['desc'] + ': ' + what, rep)
     if tot['skipped_setup']:
         ck.internal('%d generated projects did not configure' % tot['skipped_setup'])
-    ck.require(tot['projects'] > 20 and tot['with_branching'] > 5, 'too few projects / no branching lattices')
+    if ck.want('projgen'):
+        ck.require(tot['projects'] > 20 and tot['with_branching'] > 5, 'too few projects / no branching lattices')
+    if ck.want('ctlib'):
+        ck.part('ctlib', projects=ctl['projects'], cells=len(ctl['cells']), library_on_link_line=ctl['library_on_link_line'],
+                producers=len({c[0] for c in ctl['cells']}), relations=len({c[1] for c in ctl['cells']}), consumers=len({c[2] for c in ctl['cells']}))
+        ck.require(ctl['projects'] >= 40 and ctl['library_on_link_line'] >= 30 and len({c[1] for c in ctl['cells']}) == len(CTLIB_RELATIONS),
+                   'custom-target library family: too few projects whose link line really names the library')
     for k, v in tot.items():
         ck.part('lattice', **{k: v})
     ck.part('lattice', max_edges=maxedges)
